@@ -463,7 +463,24 @@ def _run(case, ctx, given_track):
             break
 
     results = []          # per query: (got, raised)
-    track = (given_track or _make_track(pts)) if kind in ("track", "tracks") else None
+    track = None
+    if kind in ("track", "tracks"):
+        track = given_track
+        if track is None and (len(pts) + int(abs(pts[0][0]) * 8)) % 3 == 0:
+            # error path first: a projection on the reference when it holds a single fix cannot be honoured; what it
+            # raises is not judged.  The reference then receives its other fixes and the valid requests follow on
+            # the same Track object.
+            from tracklib.core.obs_coords import ENUCoords
+            from tracklib.algo.mapping import mapOnTrack
+            full = _make_track(pts)
+            track = _make_track(pts[:1])
+            M.call(mapOnTrack, ENUCoords(Q[0][0], Q[0][1], 0.0), track)
+            M.call(mapOnTrack, _make_track([q[:2] for q in Q]), track)
+            for i in range(1, len(pts)):
+                track.addObs(full.getObs(i))
+            cls.append("after_requests_that_failed")
+        elif track is None:
+            track = _make_track(pts)
     snap = None
     if track is not None:
         snap = (list(track.getX()), list(track.getY()))
